@@ -450,7 +450,10 @@ class Side:
     if 'res' in v:
       k = v['res']
       x = results[k] if k < len(results) else None
-      return x.value if isinstance(x, self.cu.RemoteObject) else x
+      x = x.value if isinstance(x, self.cu.RemoteObject) else x
+      if not self.is_handle(x):
+        raise _SkipOp()          # the op referred to did not return a handle
+      return x
     raise ValueError(v)
 
   def fin_args(self, fin, results):
@@ -484,6 +487,10 @@ class Side:
       fn = lib14.gen if p == 'mk_gen' else lib14.make_queue
       return lf.trace(fn)(items, stop, fail, lazy_result_=True)
     raise ValueError(p)
+
+
+class _SkipOp(BaseException):
+  pass
 
 
 def outcome(thunk, enc_ok):
@@ -607,6 +614,8 @@ class Remote(Side):
           try:
             r = self.with_env(op, thunk)
             ob, res = {'ok': self.enc_res(r)}, r
+          except _SkipOp:
+            pass
           except Exception as e:  # pylint: disable=broad-except
             ob = {'err': self.enc_exc(e)}
       elif kind == 'call':
@@ -629,6 +638,8 @@ class Remote(Side):
               res = cu.RemoteObject.new(val, worker=self.client)
           else:
             ob = {'payload': self.enc_pval(raw), 'gz': False, 'leak': False}
+        except _SkipOp:
+          pass
         except Exception as e:  # pylint: disable=broad-except
           m = _STATUS.match(getattr(e, 'message', '') or '')
           if type(e).__name__ == 'StatusNotOk' and m:
@@ -726,6 +737,8 @@ class Local(Side):
             try:
               lazy = self.build(prog, results)           # tracing happens on the client, before any call
               thunk = lambda lazy=lazy: lf.maybe_make(lazy)
+            except _SkipOp:
+              pass
             except Exception as e:  # pylint: disable=broad-except
               ob = {'err': self.enc_exc(e), 'trace': True}
         if thunk is not None:
@@ -746,6 +759,8 @@ class Local(Side):
         try:
           lazy = self.build(op['prog'], results)
           thunk = lambda lazy=lazy: lf.maybe_make(lazy)
+        except _SkipOp:
+          thunk = None
         except Exception as e:  # pylint: disable=broad-except
           thunk = None
           ob = {'err': self.enc_exc(e), 'trace': True}
